@@ -113,5 +113,32 @@ def decideArgs (a : Args) : Outcome :=
                    suffixV4 := hb, suffixV6 := hb }
   | _, _, _ => .reject .argparse            -- `required=True` options missing, or `host_bits` refused the value
 
+/-- the namespace returned by `_parse_args` (fields named as in Python): what `main` works on after parsing -/
+structure Parsed where
+  input : String
+  output : String
+  anonymize_ips : Bool
+  anonymize_passwords : Bool
+  undo : Bool
+  salt : Option String
+  dump_ip_map : Option String
+  as_numbers : Option String
+  reserved_words : Option String
+  sensitive_words : Option String
+  preserve_prefixes : Option String
+  preserve_addresses : Option String
+  preserve_private_addresses : Bool
+  preserve_host_bits : Nat
+
+/-- the parsed namespace of an argument vector whose required options and host bits were accepted by argparse -/
+def parsedOf (a : Args) (inp outp : String) (hb : Nat) : Parsed :=
+  { input := inp, output := outp, anonymize_ips := resolve a.anonymizeIps false,
+    anonymize_passwords := resolve a.anonymizePasswords false, undo := resolve a.undo false,
+    salt := resolveOpt a.salt, dump_ip_map := resolveOpt a.dump, as_numbers := resolveOpt a.asNumbers,
+    reserved_words := resolveOpt a.reserved, sensitive_words := resolveOpt a.words,
+    preserve_prefixes := some (resolve a.preservePrefixes defaultPrefixes),
+    preserve_addresses := resolveOpt a.preserveAddresses,
+    preserve_private_addresses := resolve a.preservePrivate false, preserve_host_bits := hb }
+
 end Cli
 end Netconan
